@@ -22,6 +22,7 @@ import (
 	"os"
 	"sort"
 	"strings"
+	"sync/atomic"
 	"time"
 
 	"github.com/pierrec/lz4/v4"
@@ -113,7 +114,8 @@ type rawIn struct {
 }
 
 type input struct {
-	Kind   string   `json:"kind"` // metrics | event | config | rx_metrics | rx_event | raw
+	Kind   string   `json:"kind"` // metrics | event | config | rx_metrics | rx_event | raw | concurrent
+	Conc   *concIn  `json:"conc,omitempty"`
 	Raw    *rawIn   `json:"raw,omitempty"`
 	Cfg    cfg      `json:"cfg"`
 	Series []series `json:"series,omitempty"`
@@ -196,6 +198,7 @@ func project(mm *gostatsd.MetricMap) string {
 // the rig: one ingestion server + one forwarder per configuration
 
 type record struct {
+	scripted  bool // answered 503 by the fault script, not routed
 	path, enc string
 	body      []byte
 	status    int
@@ -233,7 +236,18 @@ func (w *statusWriter) WriteHeader(s int) {
 	w.ResponseWriter.WriteHeader(s)
 }
 
+type rigOpt struct {
+	maxReq     int
+	dyn        []string
+	flush      time.Duration
+	maxElapsed time.Duration
+}
+
+var defaultOpt = rigOpt{maxReq: 1, flush: time.Millisecond, maxElapsed: 300 * time.Millisecond}
+
 type rig struct {
+	failLeft int64 // atomic: the next failLeft requests are answered 503 without being routed
+	delayNs  int64 // atomic: every request is held this long before it is routed
 	cfg     cfg
 	srv     *httptest.Server
 	fwd     *statsd.HttpForwarderHandlerV2
@@ -246,13 +260,19 @@ type rig struct {
 var quiet = func() *logrus.Logger { l := logrus.New(); l.SetOutput(io.Discard); return l }()
 
 func newForwarder(c cfg, endpoint string) (*statsd.HttpForwarderHandlerV2, error) {
-	pool := transport.NewTransportPool(quiet, viper.New())
-	return statsd.NewHttpForwarderHandlerV2(quiet, "default", endpoint, 1, 1, 1, c.Compress, c.CType, c.Level,
-		300*time.Millisecond, time.Millisecond, nil, nil, pool, nil)
+	return newForwarderOpt(c, endpoint, defaultOpt)
 }
 
-func newRig(c cfg) (*rig, error) {
-	r := &rig{cfg: c, records: make(chan *record, 64), done: make(chan struct{})}
+func newForwarderOpt(c cfg, endpoint string, o rigOpt) (*statsd.HttpForwarderHandlerV2, error) {
+	pool := transport.NewTransportPool(quiet, viper.New())
+	return statsd.NewHttpForwarderHandlerV2(quiet, "default", endpoint, 1, o.maxReq, 1, c.Compress, c.CType, c.Level,
+		o.maxElapsed, o.flush, nil, o.dyn, pool, nil)
+}
+
+func newRig(c cfg) (*rig, error) { return newRigOpt(c, defaultOpt) }
+
+func newRigOpt(c cfg, o rigOpt) (*rig, error) {
+	r := &rig{cfg: c, records: make(chan *record, 1024), done: make(chan struct{})}
 	hs, err := web.NewHttpServer(quiet, capture{}, "verif", "127.0.0.1:0", false, false, true, false, nil, nil)
 	if err != nil {
 		return nil, err
@@ -261,6 +281,15 @@ func newRig(c cfg) (*rig, error) {
 		body, _ := io.ReadAll(req.Body)
 		req.Body = io.NopCloser(bytes.NewReader(body))
 		rec := &record{path: req.URL.Path, enc: req.Header.Get("Content-Encoding"), body: body}
+		if d := atomic.LoadInt64(&r.delayNs); d > 0 {
+			time.Sleep(time.Duration(d))
+		}
+		if atomic.AddInt64(&r.failLeft, -1) >= 0 {
+			rec.status, rec.scripted = 503, true
+			w.WriteHeader(503)
+			r.records <- rec
+			return
+		}
 		sw := &statusWriter{ResponseWriter: w}
 		hs.Router.ServeHTTP(sw, req.WithContext(context.WithValue(req.Context(), recKey{}, rec)))
 		rec.status = sw.status
@@ -269,7 +298,7 @@ func newRig(c cfg) (*rig, error) {
 		}
 		r.records <- rec
 	}))
-	r.fwd, err = newForwarder(c, r.srv.URL)
+	r.fwd, err = newForwarderOpt(c, r.srv.URL, o)
 	if err != nil {
 		r.srv.Close()
 		return nil, err
@@ -302,6 +331,8 @@ func (r *rig) close() {
 	}
 	r.srv.Close()
 }
+
+var concAttempts = 1
 
 var cur *rig
 
@@ -364,6 +395,9 @@ func runOne(em *hlib.Emitter, in input) {
 		}
 	}
 	switch in.Kind {
+	case "concurrent":
+		runConc(em, in, concAttempts)
+		return
 	case "config":
 		f, err := newForwarder(in.Cfg, "http://127.0.0.1:1")
 		_ = f
@@ -912,6 +946,11 @@ func main() {
 	case "gen":
 		r := hlib.NewRand(a.Seed)
 		for n := 0; n < a.N; {
+			if a.Extra["stream"] == "concurrent" || r.Chance(1, 5) {
+				runOne(em, genConc(r))
+				n++
+				continue
+			}
 			if r.Chance(1, 8) {
 				runOne(em, genRx(r))
 				n++
@@ -946,6 +985,7 @@ func main() {
 			}
 		}
 	case "run":
+		concAttempts = 6
 		for _, raw := range a.Inputs {
 			var in input
 			if err := json.Unmarshal(raw, &in); err != nil {
